@@ -58,6 +58,8 @@ def trace_inputs(trace, entry):
         def emit(name, v):
             if 'data' in v:
                 kv.append((name, str(v['data'])))
+                if v.get('type') in ('double', 'float') and re.fullmatch(r'[01]+', v.get('binary', '')):
+                    kv.append((name + '#bits', str(int(v['binary'], 2))))   # the exact bit pattern (NaN payloads, -0.0)
             elif 'elements' in v:
                 for e in v['elements']:
                     emit('%s[%s]' % (name, e.get('index')), e.get('value', {}))
